@@ -43,6 +43,69 @@ func parseTree(toks []string, pos *int) redis.Resp {
 	panic("bad tree token " + t)
 }
 
+// the same tree built through the package's constructors (NewInt, NewBulkBytes, NewArray + Append /
+// AppendBulkBytes / AppendInt) wherever one exists; nil and empty arrays have no constructor form
+func buildTree(toks []string, pos *int) redis.Resp {
+	t := toks[*pos]
+	switch t[0] {
+	case 'I':
+		*pos++
+		n, _ := strconv.ParseInt(t[1:], 10, 64)
+		return redis.NewInt(n)
+	case 'B':
+		*pos++
+		if t == "Bn" {
+			return redis.NewBulkBytes(nil)
+		}
+		return redis.NewBulkBytes(nonNil(unhex(t[1:])))
+	case 'A':
+		if t == "An" || t == "A0" {
+			return parseTree(toks, pos)
+		}
+		*pos++
+		k, _ := strconv.Atoi(t[1:])
+		a := redis.NewArray()
+		for i := 0; i < k; i++ {
+			c := toks[*pos]
+			switch {
+			case c[0] == 'B' && c != "Bn":
+				*pos++
+				a.AppendBulkBytes(nonNil(unhex(c[1:])))
+			case c == "Bn":
+				*pos++
+				a.AppendBulkBytes(nil)
+			case c[0] == 'I':
+				*pos++
+				n, _ := strconv.ParseInt(c[1:], 10, 64)
+				a.AppendInt(n)
+			default:
+				a.Append(buildTree(toks, pos))
+			}
+		}
+		return a
+	}
+	return parseTree(toks, pos)
+}
+
+// K:<name hex>,<arg>... : redis.NewCommand(name, args...) with arg = s<hex> (string) | b<hex> ([]byte) | n (nil) | i<dec> (int64)
+func buildCommand(toks []string) redis.Resp {
+	var args []interface{}
+	for _, t := range toks[1:] {
+		switch t[0] {
+		case 's':
+			args = append(args, string(unhex(t[1:])))
+		case 'b':
+			args = append(args, nonNil(unhex(t[1:])))
+		case 'n':
+			args = append(args, nil)
+		case 'i':
+			n, _ := strconv.ParseInt(t[1:], 10, 64)
+			args = append(args, n)
+		}
+	}
+	return redis.NewCommand(string(unhex(toks[0])), args...)
+}
+
 func nonNil(b []byte) []byte {
 	if b == nil {
 		return []byte{}
@@ -103,7 +166,7 @@ func (c *chunkReader) Read(p []byte) (int, error) {
 	return k, nil
 }
 
-// ops: stream <bufsize> <chunk> <item>...   item = V:<tree> | R:<hex>
+// ops: stream <bufsize> <chunk> <item>...   item = V:<tree> (struct literals) | C:<tree> (constructors) | K:<command> (NewCommand) | R:<hex>
 //      itos <int>
 func probeC10(c []string, out *bufio.Writer) {
 	switch c[1] {
@@ -116,9 +179,17 @@ func probeC10(c []string, out *bufio.Writer) {
 		var stream []byte
 		var encs []string
 		for _, it := range c[4:] {
-			if strings.HasPrefix(it, "V:") {
+			if strings.HasPrefix(it, "V:") || strings.HasPrefix(it, "C:") || strings.HasPrefix(it, "K:") {
 				pos := 0
-				r := parseTree(strings.Split(it[2:], ","), &pos)
+				var r redis.Resp
+				switch it[0] {
+				case 'V':
+					r = parseTree(strings.Split(it[2:], ","), &pos)
+				case 'C':
+					r = buildTree(strings.Split(it[2:], ","), &pos)
+				default:
+					r = buildCommand(strings.Split(it[2:], ","))
+				}
 				b, err := redis.EncodeToBytes(r)
 				if err != nil {
 					encs = append(encs, "err")
